@@ -377,6 +377,17 @@ theorem expand_left_is_torch_broadcast (out pre v : Shape) (c : List Nat) (hlen 
     (valueCoord (pre ++ v) out c).drop pre.length = valueCoord v out c :=
   valueCoord_expand_left out pre v c hlen
 
+/-- **Collection values.** `td[idx] = TensorDict(entries, batch_size = indexed batch size)` (Ellipsis-free tuple index torch accepts
+on the batch shape) is, in `__setitem__`'s first branch (`_getitem_batch_size`, batch comparison, `_set_at_str` per key,
+`_SubTensorDict.set` for keys missing from the destination), exactly one `entry[idx] = value[key]` per key — on the destination
+leaf, or on a fresh zero leaf `batch_size ++ value[key].shape[len(indexed_bs):]` for a new key — and nothing else. Each of those
+calls is described by `setitem_frame` / `setitem_hit`; a value whose batch is a trailing part of the indexed batch goes through
+`expand_left_is_torch_broadcast`. -/
+theorem setitem_collection_exact (td : TD) (items : List Ix) (R : IndexResult) (entries : List VEntry)
+    (hn : noEll items = true) (h : index td.bs items = .ok R) :
+    setitemColl td (.tuple items) false R.shape entries = entries.mapM (entryWrite td R.shape items) :=
+  setitemColl_exact td items R entries hn h
+
 /-! ### aliasing -/
 
 /-- **Shares memory iff basic.** torch's result is a view of the source exactly when every item of the index is basic
